@@ -169,6 +169,9 @@ svc = service("UniversalService", [
         arg("q", opt(S), "query", "q"),
         arg("first", S, "path"),
     ], returns=S),
+    # exactly one query argument (its wire id differs from its name)
+    endpoint("oneQuery", "GET", "/u/one", [arg("pageLimit", opt(I), "query", "limit")], returns=I),
+    endpoint("oneQueryRequired", "GET", "/u/onereq", [arg("theId", I, "query", "id")], returns=I),
     endpoint("context", "GET", "/u/context", [arg("arg", opt(S), "query", "arg")], tags=["server-request-context"]),
     endpoint("noop", "POST", "/u/noop", []),
 ], P)
